@@ -10,8 +10,10 @@ CONSTANTS
   Orders <- OrdersQuick
   SeqPaths = {"msgp"}
   MapPaths = {"map"}
+  KeySets <- KeySetsBig
+  KeyPaths = {"msgp"}
   PTypings = {"absent", "str", "empty", "nonstr"}
   STypings = {"absent", "log", "trace", "empty", "nonstr"}
   Faithful = FALSE
 CHECK_DEADLOCK FALSE
-INVARIANTS TypeOK C21Belongs C21ConfiguredOrder C21Root C21OrderIndependent OnlyIdeal
+INVARIANTS TypeOK C21Belongs C21ConfiguredOrder C21Root C21OrderIndependent C21SamplerIndependent OnlyIdeal
